@@ -1,4 +1,4 @@
-import Psa.EvalProofs
+import Psa.C02Bridge
 import Psa.ExpectedFacts
 /-! # C02 — the built-in checks implement the Pod Security Standards at every version
 Property theorems only; helper lemmas live in `Psa/Standard.lean`, `Psa/C02.lean`, `Psa/RegistryProofs.lean`. -/
@@ -36,6 +36,11 @@ theorem C02_reads_modelled : Expected.readsWithin Generated.readSets Expected.re
 theorem C02_keys : Generated.seccompPodAnnKey = seccompPodAnnKey ∧ Generated.seccompContainerAnnPrefix = seccompContainerAnnPrefix ∧
     Generated.appArmorAnnKeyPrefix = appArmorAnnKeyPrefix := by decide
 
+/-- the model evaluator is the Standard's own evaluator (`stdEval`, used as the oracle by the correspondence run) -/
+theorem C02_model_is_standard (l : Level) (v : Ver) (p : Pod) (hv : v.requestable) :
+    evalPodModel Generated.tables false ⟨l, v⟩ p = stdEval l v p := evalPodModel_eq_stdEval l v p hv
+
+#print axioms C02_model_is_standard
 #print axioms C02_tables_published
 #print axioms C02_meta_modelled
 #print axioms C02_meta_wellformed
